@@ -226,7 +226,7 @@ def alignmentsOf (n : Nat) (given : List Nat) : Except Err (List Nat) :=
 def borderBody (lineCh c r : Str) : List Nat → Str
   | [] => []
   | [x] => rep x lineCh ++ r
-  | x :: xs => rep x lineCh ++ c ++ borderBody lineCh c r xs
+  | x :: y :: xs => rep x lineCh ++ c ++ borderBody lineCh c r (y :: xs)
 
 /-- `draw_border` before the `rstrip` -/
 def borderRaw (indent : Nat) (lens : List Nat) (lineCh l c r : Str) : Str :=
@@ -271,10 +271,16 @@ def finish (l : RawLine) : Option Str :=
   let s := rstrip l.2
   if l.1 && s.isEmpty then none else some s
 
-/-- the cells of wrapped row `i`, split into lines, with width and alignment -/
+/-- the cells of wrapped row `i`, split into lines, with width and alignment
+(`alignments[col]`, `IndexError` -> `LEFT`); `j` is the index of the first column of `outs` -/
+def rowDataFrom (aligns : List Nat) (i : Nat) : Nat → List ColOut → List RowCol
+  | _, [] => []
+  | j, o :: r =>
+    (o.width, aligns.getD j Clikit.Gen.C14.LEFT, splitLines ((o.cells.getD i ⟨[], 0⟩).text))
+      :: rowDataFrom aligns i (j + 1) r
+
 def rowData (outs : List ColOut) (aligns : List Nat) (i : Nat) : List RowCol :=
-  (outs.zipIdx).map (fun (o, j) =>
-    (o.width, aligns.getD j Clikit.Gen.C14.LEFT, splitLines ((o.cells.getD i ⟨[], 0⟩).text)))
+  rowDataFrom aligns i 0 outs
 
 /-! ### `Table` -/
 
